@@ -1,5 +1,6 @@
 import SmtpV.Model.Lifecycle
 import SmtpV.Model.Chunked
+import SmtpV.Model.LateStart
 /-!
 # C20 — no data races or deadlocks; Close and Shutdown end serving exactly once  (**partial**)
 
@@ -225,5 +226,27 @@ theorem C20_close_ends_everything (nA nB : Nat) (errA errB : Bool) (rest : List 
   simp only [run2, endings2, Bool.false_eq_true, if_false]
   refine ⟨h.1, by simp, ?_, by simp, by simp⟩
   simpa using h.2
+
+/-! ### the start of a chunked delivery against `Conn.Close` (model `LateStart`, fix c1a4e24) -/
+
+/-- **C20_late_start_no_panic.**  Under every schedule of the command loop (any number of transfers, `Close` at any point) and the
+    delivery goroutines, the repaired code never dereferences a nil session: no recovered panic (also C19). -/
+theorem C20_late_start_no_panic (prog : List LateStart.Op) (sched : List Nat) :
+    (LateStart.exec true { prog := prog } sched).panics = 0 :=
+  LateStart.no_panic_any_schedule prog sched
+
+/-- **C20_late_start_never_calls.**  A delivery that has not looked at the session by the time the connection is closed never calls the
+    backend, however the goroutines are scheduled afterwards (also C08: no callback begins after Logout from a late start). -/
+theorem C20_late_start_never_calls (sched : List Nat) (c : LateStart.Conf) (t : Nat) (h : LateStart.Dead c t) :
+    t ∉ (LateStart.exec true c sched).dataCalls :=
+  LateStart.late_start_never_calls sched c t h
+
+/-- the tree before the repair: BDAT, the peer goes away, the goroutine gets to run — a recovered panic -/
+theorem C20_late_start_pinned_panics :
+    (LateStart.exec false { prog := [.spawn, .close] } [0, 0, 1]).panics = 1 := LateStart.pinned_tree_panics
+
+/-- what no small patch closes: the goroutine sees the session, `Close` logs it out, then `Data` begins -/
+theorem C20_late_start_window_remains :
+    (LateStart.exec true { prog := [.spawn, .close] } [0, 1, 0, 1]).lateCalls = 1 := LateStart.window_remains
 
 end SmtpV.Props.C20
